@@ -8,6 +8,7 @@ itself is replaced as well, so code reaching it by another import path still mee
 from __future__ import annotations
 
 import asyncio
+import threading
 import time as _time
 import types
 from typing import Any, Dict
@@ -25,8 +26,10 @@ def install(world: World) -> Dict[str, Any]:
             task = asyncio.current_task()
         except RuntimeError:
             task = None
-        world.rec('client', 'sleep', delay=delay, mode='blocking',
-                  task=getattr(task, 'pjsim_caller', None) if task is not None else None)
+        who = getattr(task, 'pjsim_caller', None) if task is not None else None
+        if who is None:
+            who = getattr(threading.current_thread(), 'pjsim_caller', None)
+        world.rec('client', 'sleep', delay=delay, mode='blocking', task=who)
         world.probe('sleep.blocking')
         if isinstance(delay, (int, float)) and delay > 0:
             world.now += delay
